@@ -286,7 +286,19 @@ def _exec_enc(f):
     if ln is not None:
         ds.append(lambda: bitstring.Dtype(f"{name}{ln}"))
         ds.append(lambda: bitstring.Dtype(f"{name}:{ln}"))
-    res["build"] = merge([tok(lambda d=d: build(d), fmt) for d in ds])
+    bl = [tok(lambda d=d: build(d), fmt) for d in ds]
+    if fam == "bits":
+        # the value may be a bitstring of any class: the built object is always a (new, immutable) Bits
+        def build_from(d, c):
+            src = CLASSES[c](bin=v) if v else CLASSES[c]()
+            r = d().build(src)
+            if type(r) is not Bits or r is src:
+                raise AssertionError(f"build({c}) returned {type(r).__name__}" + (" (the value itself)" if r is src else ""))
+            if isinstance(src, BitArray):
+                src.append("0b1"); src.invert()                      # a later change of the source must not show
+            return r
+        bl += [tok(lambda d=d, c=c: build_from(d, c), fmt) for d in ds for c in CLASS_NAMES]
+    res["build"] = merge(bl)
     # -- pack
     pf = name if ln is None else f"{name}:{ln}"
     if fam == "pad":
